@@ -220,7 +220,7 @@ class _Gen:
         # unit-level switches: shapes that keep a unit away from generated Python are confined to a share of the units
         self.wrong_kind_names = draw(st.integers(0, 99)) < 35  # fields / nested enums carrying a hot name
         self.foreign_nested = draw(st.integers(0, 99)) < 35  # D7 / N3 shapes may be chosen
-        self.odd_import_names = draw(st.integers(0, 99)) < 15  # `import Tiger "x.bitproto"`
+        self.odd_import_names = draw(st.integers(0, 99)) < 35  # `import Tiger "x.bitproto"`: an import name that nested messages can shadow
 
     def width(self) -> int:
         self.k += 1
@@ -253,7 +253,7 @@ class _Gen:
             m.items.append(f)
         # a hot message may itself hold a nested hot enum, so that the same DOTTED path (`Tiger.Panda`)
         # can exist complete at several scopes (docs/language.rst: "local B.Color wins")
-        if self.draw(st.integers(0, 2)) == 0:
+        if self.draw(st.integers(0, 1)) == 0:
             free = [n for n in HOT_TYPES if n != name and n not in self.declared(m)]
             if free:
                 e = self.hot_enum(free[self.draw(st.integers(0, len(free) - 1))])
@@ -377,7 +377,7 @@ class _Gen:
                     r = d(st.integers(0, 9))
                     if r < 4:
                         an = asn[j]
-                    elif r == 4 and self.odd_import_names:
+                    elif r in (4, 5, 6) and self.odd_import_names:
                         an = HOT_TYPES[d(st.integers(0, len(HOT_TYPES) - 1))]  # an import named like a hot type
                     imp = Import(self.files[j], an)
                     imp.parent = f
